@@ -386,15 +386,24 @@ def run(tier, seed):
     controls.append(("a seeding call that ignores its argument accepted", c))
 
     # implementation-side control: one session in which the shuffle is served by numpy.random
+    # (a session in which the order of the rows matters to the training result: with a single batch per epoch and
+    # chains that happen to be deterministic the sums are order-independent and exact, and the two runs agree
+    # legitimately - seen at VERIF_SEED=3; several fits with different batch sizes, and the first session of a few
+    # in which the two runs do differ)
     typ = "positive"
-    hist = [lo.mkop("Seed", k=1), lo.mkop("Construct"), lo.mkop("Fit", k=1, n=0, e=2), lo.mkop("Sample", k=1, n=64)]
+    hist = [lo.mkop("Seed", k=1), lo.mkop("Construct"), lo.mkop("Fit", k=1, n=0, e=2), lo.mkop("Fit", k=2, n=1, e=1),
+            lo.mkop("Fit", k=1, n=1, e=3), lo.mkop("Sample", k=1, n=64)]
     orig = torch.randperm
-    try:
-        torch.randperm = lambda nn, *a, **k: torch.as_tensor(np.random.permutation(nn))
-        sess = lo.Session(typ, "control-numpy-shuffle")
-        cline, craw = lo.product(sess, hist, garbage_seed=seed)
-    finally:
-        torch.randperm = orig
+    cline = None
+    for attempt in range(6):
+        try:
+            torch.randperm = lambda nn, *a, **k: torch.as_tensor(np.random.permutation(nn))
+            sess = lo.Session(typ, "control-numpy-shuffle-%d" % attempt)
+            cline, craw = lo.product(sess, hist, garbage_seed=seed)
+        finally:
+            torch.randperm = orig
+        if any(e["a"]["pv"] != e["b"]["pv"] for e in cline["ev"]):
+            break
     controls.append(("a fit whose shuffle comes from numpy.random accepted", cline))
 
     tres, acc, matched = validate(lines + [c for _, c in controls])
